@@ -113,7 +113,7 @@ func (g *SentenceGen) Random(r *rand.Rand, target int) []int {
 	walk = func(nt int, depth int) {
 		pi := g.witness[nt]
 		steps++
-		if depth <= 25 && steps < 3000 && len(out) < target && len(out) < 200 {
+		if depth <= 25+target && steps < 3000+20*target && len(out) < target && len(out) < 200+target {
 			var usable []int
 			for _, q := range g.C.ProdsOf(nt) {
 				if g.prodOK[q] >= 0 {
@@ -131,6 +131,29 @@ func (g *SentenceGen) Random(r *rand.Rand, target int) []int {
 		}
 	}
 	walk(0, 0)
+	return out
+}
+
+// LongSentences returns up to n distinct sentences of at least minLen tokens (deep parse
+// stacks: nesting and right recursion drive the LR stack past its initial capacity).
+func LongSentences(r *rand.Rand, c *CFG, n, minLen int) [][]int {
+	sg := NewSentenceGen(c)
+	if !sg.HasSentence() {
+		return nil
+	}
+	seen := map[string]bool{}
+	var out [][]int
+	for tries := 0; tries < n*30 && len(out) < n; tries++ {
+		s := sg.Random(r, minLen+r.Intn(minLen))
+		if len(s) < minLen || len(s) > 4000 {
+			continue
+		}
+		k := keyOf(s)
+		if !seen[k] {
+			seen[k] = true
+			out = append(out, s)
+		}
+	}
 	return out
 }
 
